@@ -62,6 +62,7 @@ type VC struct {
 	recDone  map[string]bool
 	capture  *[]string
 	covers   []*Obl
+	replay   *ReplayInfo
 }
 
 func newVC(fn string) *VC {
